@@ -1,10 +1,10 @@
 (* C06 — Union/intersection map arithmetic folds exactly the inputs valid at each pixel.
-   Statements only; proofs in MultiProofs.v.  The statements are about the dense specification
-   d_apply_operation, with which the implementation (and the layout-level model
-   Ops.apply_operation of operations._apply_operation) is compared on every run; the L1 -> L0
-   refinement of apply_operation is listed as open in DESIGN.md. *)
+   Statements only; proofs in MultiProofs.v (the dense specification d_apply_operation) and
+   MultiRefine.v (the layout-level model Ops.apply_operation of operations._apply_operation refines
+   that specification for every list of well-formed inputs of one resolution, in any block order).
+   The implementation is compared with both on every run. *)
 From Coq Require Import QArith.
-From HS Require Import Prelude Cov Map Spec Ops Spec2 MultiProofs Exec Exec2.
+From HS Require Import Prelude Cov Map Spec Ops Spec2 Params MapProofs MultiProofs MultiRefine Exec Exec2.
 Open Scope Z_scope.
 
 Section C06.
@@ -41,6 +41,25 @@ Theorem C06_intersection_invalid_where_an_input_is_missing :
 Proof. exact (intersection_missing_input V dv). Qed.
 
 End C06.
+
+(* the layout-level algorithm (combined coverage index, per-input scatter through the new index,
+   touch counters, final invalidation, overflow reset) never fails on well-formed inputs of one
+   resolution, returns a well-formed map, and that map's dense abstraction is the specification
+   applied to the abstractions of the inputs — each input under its own validity test *)
+Theorem C06_apply_operation_refines_the_specification :
+  forall (P : params) (f : p_V P -> p_V P -> p_V P) (conv : p_V P -> p_V P) (filler sentinel : p_V P)
+         (ff : bool) (vout : p_V P -> bool),
+    vout sentinel = false ->
+    forall ncv nf, 0 <= ncv -> 0 < nf ->
+    forall (union fis : bool) (ms : list (vmap (p_V P))),
+      ms <> [] -> (forall vm, In vm ms -> okmap P ncv nf vm) ->
+      (union = true -> ff = false) -> (fis = true -> filler = sentinel) ->
+      exists m',
+        apply_operation (p_V P) (p_dv P) f conv filler sentinel fis union ff ms = Some m' /\
+        MapProofs.wf (with_valid P vout) m' /\
+        d_apply_operation (p_V P) (p_dv P) f conv filler sentinel union ff (dsof P ms) =
+          Some (abs (p_V P) (p_dv P) m').
+Proof. exact apply_operation_refines. Qed.
 
 (* the seeds of the named operations are left identities of the element functions *)
 Theorem C06_sum_seed_is_identity : forall v, canonical v -> qfun 0 q0 v = v.
@@ -82,6 +101,7 @@ Print Assumptions C06_union_folds_the_valid_inputs.
 Print Assumptions C06_union_invalid_where_no_input_is_valid.
 Print Assumptions C06_intersection_folds_all_inputs.
 Print Assumptions C06_intersection_invalid_where_an_input_is_missing.
+Print Assumptions C06_apply_operation_refines_the_specification.
 Print Assumptions C06_sum_seed_is_identity.
 Print Assumptions C06_product_seed_is_identity.
 Print Assumptions C06_or_seed_is_identity.
